@@ -1338,8 +1338,9 @@ def Setter.isCancel : Setter → Bool
 
 /-- the setter chooses the timeout source -/
 def Setter.isSource : Setter → Bool
-  | .cancel _ => false
-  | _ => true
+  | .dur _ => true
+  | .fn _ => true
+  | _ => false
 
 theorem foldl_cancel_keep (l : List Setter) (cfg : Cfg) (h : ∀ s ∈ l, s.isCancel = false) :
     (l.foldl applySetter cfg).cancel = cfg.cancel := by
@@ -1365,5 +1366,98 @@ theorem foldl_source_keep (l : List Setter) (cfg : Cfg) (h : ∀ s ∈ l, s.isSo
 theorem build_append_cons (pre post : List Setter) (s : Setter) :
     build (pre ++ s :: post) = post.foldl applySetter (applySetter (build pre) s) := by
   simp [build, List.foldl_append]
+
+/-! ## entry points: where the builder comes from, observability setters, the timeout source as a value -/
+
+/-- the setter touches the configuration the property depends on (timeout source or mode); `name` and the listener
+setters do not -/
+def Setter.isCfg (s : Setter) : Bool := s.isCancel || s.isSource
+
+theorem foldl_filter_isCfg (l : List Setter) (cfg : Cfg) :
+    (l.filter Setter.isCfg).foldl applySetter cfg = l.foldl applySetter cfg := by
+  induction l generalizing cfg with
+  | nil => rfl
+  | cons s tl ih =>
+    cases s <;> simp [List.filter, Setter.isCfg, Setter.isCancel, Setter.isSource, applySetter, ih]
+
+theorem buildFrom_eq_build (st : Start) (chain : List Setter) : buildFrom st chain = build chain := by
+  cases st <;> rfl
+
+theorem foldl_copy (path : List Copy) (s : Src) : path.foldl Src.copy s = s := by
+  induction path generalizing s with
+  | nil => rfl
+  | cons a tl ih => cases a <;> simpa [Src.copy] using ih s
+
+theorem probeSource_eq (cfg : Cfg) (path : List Copy) (own : Option Tmo) :
+    probeSource cfg path own = effTimeout cfg own := by
+  unfold probeSource
+  rw [foldl_copy]
+  unfold Cfg.source effTimeout
+  cases cfg.dyn <;> simp [Src.get]
+
+/-! ## groups of callers (services built from one layer, handles of a service) -/
+
+/-- the operations of the callers of a group, and the passing of time -/
+def Op.ofGroup (member : Nat → Bool) (op : Op) : Bool :=
+  match op.caller with
+  | none => true
+  | some c => member c
+
+theorem ofGroup_of_relevant (member : Nat → Bool) (c : Nat) (hc : member c = true) (op : Op)
+    (h : relevant c op = true) : op.ofGroup member = true := by
+  cases op <;> simp_all [relevant, Op.ofGroup, Op.caller]
+
+theorem filter_relevant_ofGroup (member : Nat → Bool) (c : Nat) (hc : member c = true) (ops : List Op) :
+    (ops.filter (Op.ofGroup member)).filter (relevant c) = ops.filter (relevant c) := by
+  induction ops with
+  | nil => rfl
+  | cons o os ih =>
+    cases hr : relevant c o
+    · cases hg : o.ofGroup member <;> simp [List.filter, hr, hg, ih]
+    · have hg := ofGroup_of_relevant member c hc o hr
+      simp [List.filter, hr, hg, ih]
+
+/-- a poll that starts the inner call appends exactly the caller's events, rendered with the next serial -/
+theorem newEvents_first_poll (cfg : Cfg) (s : State) (c : Nat) (x : Caller)
+    (hx : lookup s.callers c = some x) (h : CEv.called ∈ (pollC cfg s.now x).2) :
+    newEvents cfg s (.poll c) = (pollC cfg s.now x).2.map (toEv c s.serial) := by
+  simp [newEvents, stepS, applyC, hx, h]
+
+/-- the first poll of a non-cancelling call whose timeout is zero: `sleep(0)` is ready, the task has not run yet -/
+theorem firstPoll_zero_detached (cfg : Cfg) (hc : cfg.cancel = false) (now : Nat) (x : Caller)
+    (hf : x.outer = .fresh) (hu : x.unl = false) (hz : x.tmo = 0) :
+    (pollC cfg now x).2 =
+      [CEv.result .timeout, CEv.called] ++ (if x.sc.out ≠ .never ∧ x.sc.lat = 0 then [CEv.done x.sc.out] else []) ∧
+    (pollC cfg now x).1.outer = .gone ∧
+    (pollC cfg now x).1.inner = (if x.sc.out ≠ .never ∧ x.sc.lat = 0 then .finished else .running) := by
+  unfold pollC
+  simp only [hf, hc, Bool.false_eq_true, if_false]
+  unfold firstPollDetached
+  simp only [hu, hz, and_self, if_true]
+  unfold runTask
+  by_cases h : x.sc.out ≠ .never ∧ x.sc.lat = 0
+  · have h' : x.sc.out ≠ .never ∧ now + x.sc.lat ≤ now := ⟨h.1, by omega⟩
+    simp [expire, begin, note, Caller.doneAt, h]
+  · have h' : ¬ (x.sc.out ≠ .never ∧ now + x.sc.lat ≤ now) := by
+      intro hh; exact h ⟨hh.1, by omega⟩
+    simp [expire, begin, note, Caller.doneAt, h, h']
+
+/-- the accessors of the error type on every result the model delivers -/
+theorem accessors_spec (r : CRes) (k : Nat) :
+    (isTimeout (r.toRes k) = true ↔ r = .timeout) ∧
+    (∀ kd v, intoInner (r.toRes k) = some (kd, v) ↔ (r = .err kd ∧ v = k)) ∧
+    (r = .timeout → intoInner (r.toRes k) = none ∧ asResilience (r.toRes k) = some (.timeout "time_limiter")) ∧
+    (∀ kd, r = .err kd → asResilience (r.toRes k) = some (.application kd k)) ∧
+    (r = .ok → isTimeout (r.toRes k) = false ∧ intoInner (r.toRes k) = none ∧ asResilience (r.toRes k) = none) := by
+  cases r <;> simp [CRes.toRes, isTimeout, intoInner, asResilience]
+  exact fun _ _ _ => eq_comm
+
+theorem isTimeout_toRes {r : CRes} {k : Nat} (h : isTimeout (r.toRes k) = true) : r = .timeout :=
+  (accessors_spec r k).1.mp h
+
+theorem accessors_timeout : isTimeout Res.timeout = true ∧ intoInner Res.timeout = none := ⟨rfl, rfl⟩
+
+theorem accessors_inner (kd k : Nat) :
+    isTimeout ((resOf (.err kd)).toRes k) = false ∧ intoInner ((resOf (.err kd)).toRes k) = some (kd, k) := ⟨rfl, rfl⟩
 
 end TR.TimeLimiter
